@@ -612,8 +612,45 @@ func execC16Dcmi(a []string) (string, string) {
 		res = fmt.Sprintf("ok %s %s %s", conv(info.Inlet), conv(info.CPU), conv(info.Baseboard))
 	}
 	out := res + " " + reqS
+	// a FAILED enumeration is followed by a second one on the same connection against the same BMC: it must ask and answer
+	// exactly as the first did (nothing of the failed run is kept on the connection or the commander)
+	againVerdict := ""
+	if res == "err" {
+		log = nil
+		var info2 *dcmi.SensorInfo
+		var err2 error
+		ret2, p2 := c16Call(func() { info2, err2 = dcmi.GetSensorInfo(e.ctx, c16Sess{c: e.t}) })
+		var rs2 []string
+		for _, r := range log {
+			rs2 = append(rs2, fmt.Sprintf("%d:%d", r.entity, r.start))
+		}
+		reqS2 := "req=-"
+		if len(rs2) > 0 {
+			reqS2 = "req=" + strings.Join(rs2, ",")
+		}
+		res2 := ""
+		switch {
+		case !ret2:
+			res2 = "hang"
+		case p2 != nil:
+			res2 = fmt.Sprintf("panic")
+		case err2 != nil && info2 != nil:
+			res2 = "err-with-partial-result"
+		case err2 != nil:
+			res2 = "err"
+		default:
+			res2 = fmt.Sprintf("ok %s %s %s", conv(info2.Inlet), conv(info2.CPU), conv(info2.Baseboard))
+		}
+		out += " again=" + res2 + " " + reqS2
+		if res2 != res || reqS2 != reqS {
+			againVerdict = fmt.Sprintf("after a failed enumeration the next one against the same BMC gives %q %s, the first gave %q %s", res2, reqS2, res, reqS)
+		}
+	}
 	if badReq != "" {
 		return out, badReq
+	}
+	if againVerdict != "" {
+		return out, againVerdict
 	}
 	// reference verdict (conforming BMC: the reported total is the number of instances, pages of at least one ID)
 	if delta == 0 && ps >= 1 {
